@@ -189,6 +189,29 @@ def orderedFrom (pre : List Log) : List Log → Bool
 /-- every `indexer.add` and every index file write comes after the successful write of every pack it names -/
 def Ordered (log : List Log) : Prop := ∀ pre e post, log = pre ++ e :: post → After pre e
 
+/-! ### the end of a command, nothing failing (for the completeness theorem) -/
+
+/-- the event injects no failure -/
+def Ev.faultFree : Ev → Bool
+  | .write _ fail => !fail
+  | .index _ _ fail => !fail
+  | .finalizeIndexer fail => !fail
+  | _ => true
+
+/-- the actor of lane `t` works off its queue: `n` rounds of `process` + `index` -/
+def drainLane (enc : Bytes → Bytes) (hash : Bytes → Nat) (t : BlobType) : Nat → St → St
+  | 0, s => s
+  | n + 1, s => drainLane enc hash t n (step enc hash (step enc hash s (.write t false)) (.index t false false))
+
+/-- `data_packer.finalize()`, `tree_packer.finalize()` (each: `save` what is left, then wait for the actor), then
+`indexer.finalize()` — the end of `Archiver::finalize_snapshot`, `Repacker::finalize`, `copy`, the `pack_blobs` hook. -/
+def finalizeAll (enc : Bytes → Bytes) (hash : Bytes → Nat) (s : St) : St :=
+  let s1 := step enc hash s (.flush .data)
+  let s2 := drainLane enc hash .data ((s1.lane .data).chan.length + (s1.lane .data).done.length) s1
+  let s3 := step enc hash s2 (.flush .tree)
+  let s4 := drainLane enc hash .tree ((s3.lane .tree).chan.length + (s3.lane .tree).done.length) s3
+  step enc hash s4 (.finalizeIndexer false)
+
 /-! ### the counter-model: `process` hands the pack to the indexer BEFORE `write_bytes` (seeded change C08-2) -/
 
 /-- stages 2+3 fused in the wrong order: `index(pack)` then `write_bytes` -/
